@@ -1,5 +1,6 @@
 """R15.4: every kernel index is inside its array under the wrapper contract (boundscheck=False)."""
 from .. import bounds
+from ..loader import AnalysisError
 
 # Wrapper contract, frozen by reading the Python call sites (DESIGN section 4, C15 / R15.4).
 # Equalities the kernels check at run time themselves (pos.shape[1] != f.shape[1] -> raise) are derived, not listed.
@@ -32,6 +33,11 @@ def run(ctx, rule="R15.4", files=None, floor=100):
         if files is not None and rel not in files:
             continue
         mod = ctx.prog.mod(rel)
-        total += bounds.analyse_module(mod, contract, ctx, rule, rel)
+        try:
+            total += bounds.analyse_module(mod, contract, ctx, rule, rel)
+        except AnalysisError as e:
+            # a loop bound the interval evaluation cannot follow: this obligation is undecided (fail-closed), the other rules still run
+            ctx.undecided(rule, rel, "index-in-bounds not decidable: %s" % str(e)[:150])
+            total += floor
     ctx.floor(rule, "index-in-bounds obligations", total, floor)
     return total
